@@ -105,7 +105,11 @@ Section NesterovLoop.
       if (- dot d a_cross_b) <=? zero then
         if t1 <=? zero then
           if da_aa <=? zero then
-            if t2 <=? zero then fin region_abc else fin region_ab
+            if t2 <=? zero then
+              if t3 <=? zero then
+                if t4 <=? zero then fin region_acd else fin region_ac
+              else fin region_abc
+            else fin region_ab
           else
             if t2 <=? zero then
               if t3 <=? zero then
@@ -123,9 +127,11 @@ Section NesterovLoop.
         if dot c a_cross_b <=? zero then
           if t2 <=? zero then
             if t3 <=? zero then
-              if t4 <=? zero then fin region_acd else fin region_ac
+              if t4 <=? zero then
+                if t6 <=? zero then fin region_ad else fin region_acd
+              else fin region_ac
             else fin region_abc
-          else fin region_ad
+          else fin region_ab                                       (* F-N3 repair: was region_ad *)
         else
           if dot d a_cross_c <=? zero then
             if t4 <=? zero then
@@ -147,7 +153,7 @@ Section NesterovLoop.
             if t3 <=? zero then
               if t4 <=? zero then fin region_acd else fin region_ac
             else
-              if negb (dot c a_cross_b =? zero) then fin region_abc else fin region_acd   (* `if c.dot(a_cross_b):` *)
+              if dot c a_cross_b <=? zero then fin region_abc else fin region_acd          (* F-N3 repair: was `if c.dot(a_cross_b):` *)
         else
           if dot c a_cross_b <=? zero then
             if t3 <=? zero then fin region_ac else fin region_abc
